@@ -1,0 +1,31 @@
+//go:build verif
+
+package uhppote
+
+import (
+	"time"
+
+	"github.com/uhppoted/uhppote-core/types"
+)
+
+// Verification hook (build tag 'verif' only): exports the transport driver interface and
+// a constructor that allows a test harness to wrap or replace the UDP/TCP driver.
+
+type Driver = driver
+
+func NewUHPPOTEWithDriver(
+	bindAddr types.BindAddr,
+	broadcastAddr types.BroadcastAddr,
+	listenAddr types.ListenAddr,
+	timeout time.Duration,
+	devices []Device,
+	debug bool,
+	wrap func(Driver) Driver) IUHPPOTE {
+	u := NewUHPPOTE(bindAddr, broadcastAddr, listenAddr, timeout, devices, debug).(*uhppote)
+
+	if wrap != nil {
+		u.driver = wrap(u.driver)
+	}
+
+	return u
+}
